@@ -33,11 +33,11 @@ def plan(tier, seed):
     n = 32 if tier == 'thorough' else 8
     for k in range(n):
         specs.append(dict(kind='convert', sub=k,
-                          count=600 if tier == 'thorough' else 120,
+                          count=800 if tier == 'thorough' else 500,
                           hashseed=k))
     for k in range(n):
         specs.append(dict(kind='ops', sub=k,
-                          count=120 if tier == 'thorough' else 25,
+                          count=160 if tier == 'thorough' else 100,
                           hashseed=k))
     meta = dict(
         rule=RULE,
